@@ -46,6 +46,9 @@ type C10Case struct {
 	// EmptyAt: before delivering chunk i the connection returns (0, nil) once - "nothing happened",
 	// a legal io.Reader result that in-memory pipes produce for zero-length writes
 	EmptyAt []int `json:"empty_at,omitempty"`
+	// EOFWithLast: the read that delivers the last bytes of the stream reports io.EOF together
+	// with them (io.Reader allows it; crypto/tls does it when close_notify follows the data)
+	EOFWithLast bool `json:"eof_with_last,omitempty"`
 	// bind part
 	Reply    string `json:"reply,omitempty"` // success | error | indication | notstun | badattr
 	Trailing int    `json:"trailing,omitempty"`
@@ -83,9 +86,10 @@ type chunkConn struct {
 	idx       int
 	delivered int
 	// deliveredBefore of every Read call since the last mark
-	callsSince []int
-	closed     bool
-	written    []byte
+	callsSince  []int
+	closed      bool
+	written     []byte
+	eofWithLast bool
 }
 
 func (c *chunkConn) Read(b []byte) (int, error) {
@@ -114,6 +118,9 @@ func (c *chunkConn) Read(b []byte) (int, error) {
 		c.idx++
 	}
 	c.delivered += n
+	if c.eofWithLast && c.idx >= len(c.chunks) {
+		return n, io.EOF
+	}
 
 	return n, nil
 }
@@ -208,6 +215,7 @@ func runFrames(c *C10Case) (string, string) { //nolint:cyclop
 	for _, e := range c.EmptyAt {
 		conn.emptyAt[e] = true
 	}
+	conn.eofWithLast = c.EOFWithLast
 	sc := proto.NewSTUNConn(conn)
 	buf := make([]byte, c10Buf)
 	if c.Buf > 0 {
@@ -492,6 +500,7 @@ func genC10(rt *rapid.T) *C10Case {
 	if rapid.IntRange(0, 3).Draw(rt, "shortBuffer") == 0 {
 		c.Buf = rapid.SampledFrom([]int{24, 64, 100, 512, 1500, 1600, 1600, 4096}).Draw(rt, "buf")
 	}
+	c.EOFWithLast = rapid.IntRange(0, 3).Draw(rt, "eofWithLast") == 0
 	if len(c.Cuts) < 64 && rapid.IntRange(0, 3).Draw(rt, "emptyReads") == 0 {
 		for k := rapid.IntRange(1, 3).Draw(rt, "nempty"); k > 0; k-- {
 			c.EmptyAt = append(c.EmptyAt, rapid.IntRange(0, len(c.Cuts)).Draw(rt, "emptyAt"))
